@@ -25,10 +25,10 @@ theorem PhiM_lin (t : ℕ) : Lin (PhiM sp u t) := by
     rw [← (M_lin t).smul]
     congr 1; funext S; ring
 
-theorem PhiM_congr (hv : Valid sp) (hu : 0 < u) (t : ℕ) {f f' : Sys X m → ℚ}
+theorem PhiM_congr {T : ℕ} (hv : ValidTo sp T) (hu : 0 < u) (t : ℕ) (ht : t ≤ T) {f f' : Sys X m → ℚ}
     (h : ∀ S, GoodW sp t S → f S = f' S) : PhiM sp u t f = PhiM sp u t f' := by
   unfold PhiM
-  apply M_congr hv hu t
+  apply M_congr hv hu t ht
   intro S hS; rw [h S hS]
 
 theorem H_perm (t : ℕ) (f : Sys X m → ℚ) (σ : Equiv.Perm (Fin (m+1))) (S : Sys X m) :
@@ -38,7 +38,7 @@ theorem H_perm (t : ℕ) (f : Sys X m → ℚ) (σ : Equiv.Perm (Fin (m+1))) (S 
   congr 1; funext T
   rw [tot_perm]
 
-theorem propS_congr (hv : Valid sp) (t : ℕ) (S : Sys X m) {F F' : Sys X m → ℚ}
+theorem propS_congr {T : ℕ} (hv : ValidTo sp T) (t : ℕ) (S : Sys X m) {F F' : Sys X m → ℚ}
     (h : ∀ y : Fin (m+1) → X, (∀ i, 0 < sp.q t (S i).1 (y i)) →
       F (fun i => ext sp t (S i) (y i)) = F' (fun i => ext sp t (S i) (y i))) :
     propS sp t S F = propS sp t S F' := by
@@ -65,7 +65,7 @@ theorem propS_lin (t : ℕ) (S : Sys X m) : Lin (propS sp t S) := by
     apply Finset.sum_congr rfl; intro y _; ring
 
 /-- the marginal propagation of a ratio-weighted test function is the symmetric propagation -/
-theorem margP_ratio (hv : Valid sp) {t : ℕ} {S : Sys X m} (hS : GoodW sp t S) (f : Sys X m → ℚ) :
+theorem margP_ratio {T : ℕ} (hv : ValidTo sp T) {t : ℕ} (ht : t < T) {S : Sys X m} (hS : GoodW sp t S) (f : Sys X m → ℚ) :
     margP sp t S (fun T => f T * (tot T / (T 0).2)) = H sp t f S / (S 0).2 := by
   unfold margP coef
   rw [propC_sum]
@@ -73,7 +73,7 @@ theorem margP_ratio (hv : Valid sp) {t : ℕ} {S : Sys X m} (hS : GoodW sp t S) 
   rw [div_eq_mul_inv, ← (propS_lin t S).smul_right]
   apply propS_congr hv
   intro y hy
-  have hi : 0 < incr sp t (S 0).1 (y 0) := incr_pos hv (hS 0).2 (hy 0)
+  have hi : 0 < incr sp t (S 0).1 (y 0) := incr_pos hv ht (hS 0).2 (hy 0)
   have hw : 0 < (S 0).2 := (hS 0).1
   simp only [ext]
   have hi' := ne_of_gt hi
@@ -83,14 +83,14 @@ theorem margP_ratio (hv : Valid sp) {t : ℕ} {S : Sys X m} (hS : GoodW sp t S) 
 variable (sp) in
 def c1 (t : ℕ) (S : Sys X m) : ℚ := if sp.rs t (wts S) then 1 else 0
 
-theorem c1_perm (hv : Valid sp) (t : ℕ) (σ : Equiv.Perm (Fin (m+1))) (S : Sys X m) :
+theorem c1_perm {T : ℕ} (hv : ValidTo sp T) (t : ℕ) (σ : Equiv.Perm (Fin (m+1))) (S : Sys X m) :
     c1 sp t (S ∘ σ) = c1 sp t S := by
   unfold c1
   have : wts (S ∘ σ) = wts S ∘ σ := rfl
   rw [this, hv.rssymm]
 
 /-- one step of the recursion for the size-biased measure, in symmetric form -/
-theorem PhiM_succ (hv : Valid sp) (hu : 0 < u) (t : ℕ) (hex : Exch (PhiM sp u t)) (f : Sys X m → ℚ) :
+theorem PhiM_succ {T : ℕ} (hv : ValidTo sp T) (hu : 0 < u) (t : ℕ) (ht : t < T) (hex : Exch (PhiM sp u t)) (f : Sys X m → ℚ) :
     PhiM sp u (t+1) f
       = (u * ((m : ℚ) + 1))⁻¹ *
           PhiM sp u t (fun S => c1 sp t S * ∑ b : Fin (m+1) → Fin (m+1), Fterm u (H sp t f) S b)
@@ -103,8 +103,8 @@ theorem PhiM_succ (hv : Valid sp) (hu : 0 < u) (t : ℕ) (hex : Exch (PhiM sp u 
       = PhiM sp u t (fun S => c1 sp t S * Gsum u (H sp t f) S 0 * u⁻¹
           + (1 - c1 sp t S) * (H sp t f S / tot S)) := by
     unfold PhiM
-    rw [M_succ hv hu]
-    apply M_congr hv hu t
+    rw [M_succ hv hu t ht]
+    apply M_congr hv hu t (Nat.le_of_lt ht)
     intro S hS
     have hw : (S 0).2 ≠ 0 := ne_of_gt (hS 0).1
     have htot : tot S ≠ 0 := ne_of_gt (tot_pos hS)
@@ -125,7 +125,7 @@ theorem PhiM_succ (hv : Valid sp) (hu : 0 < u) (t : ℕ) (hex : Exch (PhiM sp u 
         show margP sp t (fun j => reset u (S ((Fin.cons 0 a : Fin (m+1) → Fin (m+1)) j)))
             (fun T => f T * (tot T / (T 0).2))
           = H sp t f (fun j => reset u (S ((Fin.cons 0 a : Fin (m+1) → Fin (m+1)) j))) * u⁻¹
-        rw [margP_ratio hv (reset_good hu hS _)]
+        rw [margP_ratio hv ht (reset_good hu hS _)]
         simp [reset, div_eq_mul_inv]
       rw [hc, hst, hmr, (resC_lin S).smul_right, ← resC_eq_Gsum]
       unfold wbar
@@ -135,7 +135,7 @@ theorem PhiM_succ (hv : Valid sp) (hu : 0 < u) (t : ℕ) (hex : Exch (PhiM sp u 
       have hst : stepM sp u t S (fun T => f T * (tot T / (T 0).2))
           = margP sp t S (fun T => f T * (tot T / (T 0).2)) := by
         simp [stepM, hr]
-      rw [hc, hst, margP_ratio hv hS]
+      rw [hc, hst, margP_ratio hv ht hS]
       field_simp
       ring
   rw [e1, hlin.add]
@@ -147,20 +147,21 @@ theorem PhiM_succ (hv : Valid sp) (hu : 0 < u) (t : ℕ) (hex : Exch (PhiM sp u 
     rw [← hs]
     field_simp
 
-theorem PhiM_exch (hv : Valid sp) (hu : 0 < u) : ∀ t : ℕ, Exch (PhiM sp u t) := by
+theorem PhiM_exch {T : ℕ} (hv : ValidTo sp T) (hu : 0 < u) : ∀ t : ℕ, t ≤ T → Exch (PhiM sp u t) := by
   intro t
   induction t with
   | zero =>
-    intro σ h
+    intro _ σ h
     unfold PhiM M
     apply Finset.sum_congr rfl
     intro x _
     simp only [C]
     have : (S0 sp : Sys X m) ∘ σ = S0 sp := by funext i; rfl
     rw [this]
-  | succ t ih =>
-    intro σ h
-    rw [PhiM_succ hv hu t ih, PhiM_succ hv hu t ih]
+  | succ t ih' =>
+    intro ht σ h
+    have ih := ih' (Nat.le_of_succ_le ht)
+    rw [PhiM_succ hv hu t ht ih, PhiM_succ hv hu t ht ih]
     have hH : H sp t (fun T => h (T ∘ σ)) = fun S => H sp t h (S ∘ σ) := by
       funext S; exact H_perm t h σ S
     rw [hH]
@@ -183,16 +184,16 @@ def kernel (T : ℕ) (x y : X) : ℚ := C sp u T x (fun S => sel S y)
 
 /-- **Conditional SMC leaves the (unnormalised) target invariant**, for every number of
 particles, every symmetric adaptive resampling rule and every number of steps. -/
-theorem csmc_invariant (hv : Valid sp) (hu : 0 < u) (T : ℕ) (y : X) :
+theorem csmc_invariant_to {T : ℕ} (hv : ValidTo sp T) (hu : 0 < u) (y : X) :
     ∑ x, sp.g T x * kernel sp u T x y = sp.g T y := by
   have hlin := PhiM_lin (sp := sp) (u := u) T
-  have hex := PhiM_exch (sp := sp) (u := u) hv hu T
+  have hex := PhiM_exch (sp := sp) (u := u) hv hu T (le_refl T)
   -- express through M
   show M sp u T (fun S => sel S y) = sp.g T y
   -- step 1: pass to the size-biased measure
   have e1 : M sp u T (fun S => sel S y) = PhiM sp u T (fun S => sel S y * wbar S 0) := by
     unfold PhiM
-    apply M_congr hv hu T
+    apply M_congr hv hu T (le_refl T)
     intro S hS
     have hw : (S 0).2 ≠ 0 := ne_of_gt (hS 0).1
     have htot : tot S ≠ 0 := ne_of_gt (tot_pos hS)
@@ -215,14 +216,14 @@ theorem csmc_invariant (hv : Valid sp) (hu : 0 < u) (T : ℕ) (y : X) :
       simp only [wbar_perm, Function.comp, Equiv.swap_apply_left, Equiv.swap_apply_right]
     simp only [hk]
     rw [← hlin.sum]
-    apply PhiM_congr hv hu T
+    apply PhiM_congr hv hu T (le_refl T)
     intro S hS
     rw [← Finset.mul_sum, wbar_sum hS, mul_one]
   -- step 3: back to M
   have e3 : PhiM sp u T (fun S => wbar S 0 * (if (S 0).1 = y then 1 else 0))
       = M sp u T (fun S => if (S 0).1 = y then 1 else 0) := by
     unfold PhiM
-    apply M_congr hv hu T
+    apply M_congr hv hu T (le_refl T)
     intro S hS
     have hw : (S 0).2 ≠ 0 := ne_of_gt (hS 0).1
     have htot : tot S ≠ 0 := ne_of_gt (tot_pos hS)
@@ -233,18 +234,23 @@ theorem csmc_invariant (hv : Valid sp) (hu : 0 < u) (T : ℕ) (y : X) :
   rw [Finset.sum_eq_single y]
   · by_cases hy : 0 < sp.g T y
     · have : C sp u T y (fun S => if (S 0).1 = y then 1 else 0) = C sp u T y (fun _ => 1) :=
-        C_congr hv hu T y hy (fun S hS => by simp [hS.1])
-      rw [this, C_one hv hu T y hy, mul_one]
+        C_congr hv hu T y (le_refl T) hy (fun S hS => by simp [hS.1])
+      rw [this, C_one hv hu T y (le_refl T) hy, mul_one]
     · have : sp.g T y = 0 := le_antisymm (not_lt.mp hy) (hv.gnn _ _)
       rw [this]; simp
   · intro x _ hne
     by_cases hx : 0 < sp.g T x
     · have : C sp u T x (fun S => if (S 0).1 = y then 1 else 0) = C sp u T x (fun _ => 0) :=
-        C_congr hv hu T x hx (fun S hS => by simp [hS.1, hne])
+        C_congr hv hu T x (le_refl T) hx (fun S hS => by simp [hS.1, hne])
       rw [this, (C_lin T x).zero, mul_zero]
     · have : sp.g T x = 0 := le_antisymm (not_lt.mp hx) (hv.gnn _ _)
       rw [this]; simp
   · intro h; exact absurd (mem_univ _) h
 
-#print axioms csmc_invariant
+/-- the unbounded form (kept for reference; see `ValidTo` for why the bounded one is the useful one) -/
+theorem csmc_invariant (hv : Valid sp) (hu : 0 < u) (T : ℕ) (y : X) :
+    ∑ x, sp.g T x * kernel sp u T x y = sp.g T y :=
+  csmc_invariant_to (hv.to T) hu y
+
+#print axioms csmc_invariant_to
 end ASMC
